@@ -95,9 +95,21 @@ impl<'a> Display for FormatReportFormatter<'a> {
 
 fn annotation(error: &FormattingError) -> Option<Annotation<'_>> {
     let (range_start, range_length) = error.format_len();
-    let range_end = range_start + range_length;
+    // `format_len` counts columns (a tab is `tab_spaces` wide, every char one column), but the
+    // annotation is a byte range of `line_buffer`: keep it inside the buffer and on char
+    // boundaries, otherwise rendering the report panics.
+    let buffer = &error.line_buffer;
+    let clamp = |pos: usize| {
+        let mut pos = pos.min(buffer.len());
+        while !buffer.is_char_boundary(pos) {
+            pos -= 1;
+        }
+        pos
+    };
+    let range_end = clamp(range_start + range_length);
+    let range_start = clamp(range_start);
 
-    if range_length > 0 {
+    if range_end > range_start {
         Some(Level::Error.span(range_start..range_end))
     } else {
         None
